@@ -102,6 +102,8 @@ def render_file(f):
                 left = "_v"
             else:
                 left = V.expr(e["vals"][0])
+            if e.get("uni"):
+                left = f'("{e["uni"]}", {left})[1]'
             if s["place"] == "helper_arg":
                 fn = {"eq": "check_eq", "le": "check_le", "ge": "check_ge", "in": "check_in"}[s["op"]]
                 ex = f"{fn}({left}, {getter(e['site'])})"
@@ -112,14 +114,19 @@ def render_file(f):
                 ind2 = ind + "    "
             else:
                 ind2 = ind
+            trail = f"  # {e['trail']}" if e.get("trail") else ""
             if e.get("style", "assert") == "assert":
-                L.append(f"{ind2}assert {ex}")
+                L.append(f"{ind2}assert {ex}{trail}")
                 L.append(f"{ind2}ok({e['eid']!r})")
             else:
-                if loop:
-                    L.append(f"{ind2}rec({e['eid']!r}, lambda: {ex})")
-                else:
-                    L.append(f"{ind2}rec({e['eid']!r}, lambda: {ex})")
+                L.append(f"{ind2}rec({e['eid']!r}, lambda: {ex}){trail}")
+        elif t == "cmp2":
+            # two call sites on one line
+            parts = []
+            for sid, v in zip(e["sites"], e["vals"]):
+                s2 = sites[sid]
+                parts.append(_cmp_expr(s2["op"], V.expr(v), getter(sid)))
+            L.append(f"{ind}rec({e['eid']!r}, lambda: ({parts[0]}) and ({parts[1]}))")
         elif t == "raise":
             L.append(f"{ind}mark({e['eid']!r}, 'raise')")
             L.append(f"{ind}raise ValueError({e['eid']!r})")
@@ -251,7 +258,7 @@ def mask_sites(text, which=None):
         if which is not None and i not in which:
             continue
         out += data[pos: s.span[0]]
-        out += b"\x00MASK\x00"
+        out += b"__MASK__"
         pos = s.span[1]
     out += data[pos:]
     return bytes(out)
